@@ -158,6 +158,17 @@ fn exercise(ptr: *const u8, len: usize, with_names: bool, max_steps: usize) -> T
             }
         }
     }
+    // secondary iterator methods must agree with next(): nth(k), count()
+    if let Some(Some(c)) = catch(|| catch(|| t.sections().count())) {
+        rec.t.push("cnt", Val::U(c as u64));
+        for k in 0..=c.min(max_steps) {
+            match catch(|| t.sections().nth(k).map(|s| (s.section_type_raw(), s.start_address()))) {
+                Some(Some((ty, ad))) => rec.t.push(format!("n{k}"), Val::Txt(format!("{ty:#x}/{ad:#x}"))),
+                Some(None) => rec.t.push(format!("n{k}"), Val::None),
+                None => rec.t.push(format!("n{k}"), Val::Panic),
+            }
+        }
+    }
     rec.t
 }
 
@@ -242,6 +253,20 @@ pub fn eval(c: &Case, obs: &mut Obs) -> Result<(), String> {
             }
         }
     }
+    if shape == ElfShape::Fits {
+        if t.get("cnt") != Some(&Val::U(model.len() as u64)) {
+            return Err(format!("{ctx}: sections().count() = {:?}, {} in-use entries", t.get("cnt").map(|v| v.render()), model.len()));
+        }
+        for k in 0..=model.len() {
+            let want = match model.get(k) {
+                Some(e) => Val::Txt(format!("{:#x}/{:#x}", e.raw_type, e.addr)),
+                None => Val::None,
+            };
+            if t.get(&format!("n{k}")) != Some(&want) {
+                return Err(format!("{ctx}: sections().nth({k}): expected {}, got {:?}", want.render(), t.get(&format!("n{k}")).map(|v| v.render())));
+            }
+        }
+    }
     match shape {
         ElfShape::Fits => {
             if saw_panic || !ended_none || produced != model.len() {
@@ -290,6 +315,13 @@ fn enumerate(ctx: &Ctx) -> Box<dyn Iterator<Item = Case>> {
     let tc = type_classes();
     let nmax = if ctx.tier == Tier::Thorough { 7 } else { 5 };
     let mut rot = 0usize;
+    // counts at which count * entry size wraps around 2^32
+    for (n, es, fit) in [(0x0400_0000u32, 64u32, 2usize), (0x0400_0002, 64, 2), (0x0666_6667, 40, 1), (0x0666_6668, 40, 3), (0x0800_0001, 64, 1)] {
+        for shndx in [0u32, 1, n - 1] {
+            rot += 1;
+            v.push(Case { n, entsize: es, shndx, table_len: fit * es as usize, types: vec![1, 2, 3, 1], key: 0xE1F0 + rot as u64 });
+        }
+    }
     for n in 0..=nmax {
         for es in [0u32, 39, 40, 41, 63, 64, 65, 128] {
             let full = n as usize * es as usize;
@@ -302,7 +334,7 @@ fn enumerate(ctx: &Ctx) -> Box<dyn Iterator<Item = Case>> {
             }
             for table_len in lens {
                 let mut idx: Vec<u32> = (0..n).collect();
-                idx.extend([n, 1 << 16, u32::MAX]);
+                idx.extend([n, 1 << 16, u32::MAX, 0x0400_0000 + n.saturating_sub(1), 0x0666_6667]);
                 for shndx in idx {
                     rot += 1;
                     let types: Vec<u32> = (0..8).map(|e| tc[(rot * 3 + e * 7) % tc.len()]).collect();
@@ -314,11 +346,16 @@ fn enumerate(ctx: &Ctx) -> Box<dyn Iterator<Item = Case>> {
     Box::new(v.into_iter())
 }
 
+/// Counts/indices whose product with 40 or 64 wraps around 2^32 to something small.
+fn wrap_values() -> BoxedStrategy<u32> {
+    (proptest::sample::select(vec![0x0400_0000u32, 0x0666_6667, 0x0800_0000, 0x0CCC_CCCD, 0x1000_0000, 0x8000_0000, 0x4000_0000]), 0u32..6).prop_map(|(b, d)| b + d).boxed()
+}
+
 fn strategy(_: &Ctx) -> BoxedStrategy<Case> {
     (
-        prop_oneof![8 => 0u32..12, 1 => any::<u32>(), 1 => Just(1u32 << 20)],
+        prop_oneof![8 => 0u32..12, 1 => any::<u32>(), 1 => Just(1u32 << 20), 2 => wrap_values()],
         prop_oneof![4 => Just(40u32), 4 => Just(64u32), 1 => 0u32..130, 1 => any::<u32>()],
-        prop_oneof![6 => 0u32..12, 1 => any::<u32>()],
+        prop_oneof![6 => 0u32..12, 1 => any::<u32>(), 1 => wrap_values()],
         0usize..14,
         prop_oneof![6 => Just(0i32), 2 => -9i32..9, 1 => -70i32..70],
         proptest::collection::vec(prop_oneof![3 => proptest::sample::select(type_classes()), 1 => any::<u32>()], 16),
